@@ -19,8 +19,8 @@ func (i Item) String() string { return i.Kind + ":" + i.Key }
 var (
 	annKeys   = []string{"a0", "a1", "a2", "a3", "io.k/x", "b-c"}
 	envKeys   = []string{"E0", "E1", "E2", "E3", "PATH", "E_5"}
-	mountDsts = []string{"/m0", "/m1", "/m2", "/m0/sub", "/m1/a/b", "/data", "/m2/x"}
-	devPaths  = []string{"/dev/d0", "/dev/d1", "/dev/d2", "/dev/d3"}
+	mountDsts = []string{"/m0", "/m1", "/m2", "/m0/sub", "/m1/a/b", "/data", "/m2/x", "/mn3/", "/mn4//y", "/mn5/./z"} // the last three are not in filepath.Clean form (spelled identically by all plugins)
+	devPaths  = []string{"/dev/d0", "/dev/d1", "/dev/d2", "/dev/d3", "/dev/sub/../d4"}
 	cdiNames  = []string{"vendor.com/dev=c0", "vendor.com/dev=c1", "vendor.com/dev=c2", "x.org/y=z"}
 	rlTypes   = []string{"RLIMIT_NOFILE", "RLIMIT_NPROC", "RLIMIT_CORE", "RLIMIT_AS"}
 	hpSizes   = []string{"2MB", "1GB", "64KB"}
@@ -82,9 +82,10 @@ func updatable(i Item) bool { return i.Kind == "scal" || i.Kind == "hp" || i.Kin
 // plugins are shown; "echo" values let a plugin set a field to exactly the value it already has
 // (a claim that changes nothing is still a claim) and boundary values (0, "") hit "zero means unset" slips.
 type G struct {
-	r       *rand.Rand
-	echoC   *nm.Container
-	echoRes *nm.Res
+	r         *rand.Rand
+	echoC     *nm.Container
+	echoRes   *nm.Res
+	aftermath int
 }
 
 // scalFor draws the value plugin tag sets for scalar field f.
@@ -352,9 +353,14 @@ func (g *G) applyAction(a *nm.Adjust, act Action, tag int) {
 		}
 	case "args":
 		args := []string{fmt.Sprintf("/bin/p%d", tag), "--x"}[:1+g.r.Intn(2)]
-		if rm {
+		switch {
+		case act.Op == OpRemove:
+			// the bare removal marker (UpdateArgs(nil)): releases the claim; outside the domain of C03/C04
+			// (W4: the protocol cannot express "no command line"), inside that of C01/C02/C05
+			a.Args = []string{""}
+		case rm:
 			a.Args = append([]string{""}, args...)
-		} else {
+		default:
 			a.Args = args
 		}
 	case "cdi":
